@@ -22,6 +22,7 @@ from ...language import (
     VariableNode,
     print_ast,
 )
+from ...pyutils import RefMap
 from ...type import (
     GraphQLCompositeType,
     GraphQLField,
@@ -73,7 +74,10 @@ class OverlappingFieldsCanBeMergedRule(ValidationRule):
         # A cache for the "field map" and list of fragment spreads found in any given
         # selection set. Selection sets may be asked for this information multiple
         # times, so this improves the performance of this validator.
-        self.cached_fields_and_fragment_spreads: dict = {}
+        # The cache is keyed by the identity of the selection set nodes: nodes
+        # compare equal by structure, and equal selection sets can have different
+        # parent types (always the case for documents parsed without locations).
+        self.cached_fields_and_fragment_spreads: RefMap = RefMap()
 
     def enter_selection_set(self, selection_set: SelectionSetNode, *_args: Any) -> None:
         conflicts = find_conflicts_within_selection_set(
@@ -172,7 +176,7 @@ class FragmentSpread(NamedTuple):
 
 def find_conflicts_within_selection_set(
     context: ValidationContext,
-    cached_fields_and_fragment_spreads: dict,
+    cached_fields_and_fragment_spreads: RefMap,
     compared_fields_and_fragment_pairs: OrderedPairSet,
     compared_fragment_pairs: PairSet,
     parent_type: GraphQLNamedType | None,
@@ -238,7 +242,7 @@ def find_conflicts_within_selection_set(
 def collect_conflicts_between_fields_and_fragment(
     context: ValidationContext,
     conflicts: list[Conflict],
-    cached_fields_and_fragment_spreads: dict,
+    cached_fields_and_fragment_spreads: RefMap,
     compared_fields_and_fragment_pairs: OrderedPairSet,
     compared_fragment_pairs: PairSet,
     are_mutually_exclusive: bool,
@@ -312,7 +316,7 @@ def collect_conflicts_between_fields_and_fragment(
 def collect_conflicts_between_fragments(
     context: ValidationContext,
     conflicts: list[Conflict],
-    cached_fields_and_fragment_spreads: dict,
+    cached_fields_and_fragment_spreads: RefMap,
     compared_fields_and_fragment_pairs: OrderedPairSet,
     compared_fragment_pairs: PairSet,
     are_mutually_exclusive: bool,
@@ -424,7 +428,7 @@ def collect_conflicts_between_fragments(
 
 def find_conflicts_between_sub_selection_sets(
     context: ValidationContext,
-    cached_fields_and_fragment_spreads: dict,
+    cached_fields_and_fragment_spreads: RefMap,
     compared_fields_and_fragment_pairs: OrderedPairSet,
     compared_fragment_pairs: PairSet,
     are_mutually_exclusive: bool,
@@ -524,7 +528,7 @@ def find_conflicts_between_sub_selection_sets(
 def collect_conflicts_within(
     context: ValidationContext,
     conflicts: list[Conflict],
-    cached_fields_and_fragment_spreads: dict,
+    cached_fields_and_fragment_spreads: RefMap,
     compared_fields_and_fragment_pairs: OrderedPairSet,
     compared_fragment_pairs: PairSet,
     field_map: NodeAndDefCollection,
@@ -561,7 +565,7 @@ def collect_conflicts_within(
 def collect_conflicts_between(
     context: ValidationContext,
     conflicts: list[Conflict],
-    cached_fields_and_fragment_spreads: dict,
+    cached_fields_and_fragment_spreads: RefMap,
     compared_fields_and_fragment_pairs: OrderedPairSet,
     compared_fragment_pairs: PairSet,
     parent_fields_are_mutually_exclusive: bool,
@@ -605,7 +609,7 @@ def collect_conflicts_between(
 
 def find_conflict(
     context: ValidationContext,
-    cached_fields_and_fragment_spreads: dict,
+    cached_fields_and_fragment_spreads: RefMap,
     compared_fields_and_fragment_pairs: OrderedPairSet,
     compared_fragment_pairs: PairSet,
     parent_fields_are_mutually_exclusive: bool,
@@ -816,7 +820,7 @@ def do_types_conflict(type1: GraphQLOutputType, type2: GraphQLOutputType) -> boo
 
 def get_fields_and_fragment_spreads(
     context: ValidationContext,
-    cached_fields_and_fragment_spreads: dict,
+    cached_fields_and_fragment_spreads: RefMap,
     parent_type: GraphQLNamedType | None,
     selection_set: SelectionSetNode,
     var_map: VarMap,
@@ -846,7 +850,7 @@ def get_fields_and_fragment_spreads(
 
 def get_referenced_fields_and_fragment_spreads(
     context: ValidationContext,
-    cached_fields_and_fragment_spreads: dict,
+    cached_fields_and_fragment_spreads: RefMap,
     fragment: FragmentDefinitionNode,
     var_map: VarMap,
 ) -> tuple[NodeAndDefCollection, list[FragmentSpread]]:
